@@ -81,4 +81,13 @@ var checks = map[string]check{
 		Rule:   "one rapid case = one generated program (1-2 files, every struct-like plus synthesized args/result) under a drawn presentation-only option set, built into a driver binary, then 10-30 (struct, value, perturbation) evaluations: Write bytes decoded by the strict reference decoder, reference encodings (both field orders) read back and dumped by reflection, unknown fields inserted at any nesting level, a field retagged with another wire type, a required field omitted, unions with 0 or 2 members; non-trivial = perturbation case, or a value with a nested container/struct and at least one unset optional; distinct by program, configuration, struct, value and mode",
 		Assume: []string{"an optional field with a declared default that holds the default is the same value as an unset one (the property says so); nil and empty containers are the same for non-optional fields", "struct names are unique program-wide, so a Go type is matched to its IDL struct by the name its own Write passes to WriteStructBegin", "programs the compiler rejects or whose output does not compile are counted (status classes) and left to C01/C04"},
 	},
+	"C15": {
+		ID: "C15", Pkg: "c15",
+		Jobs: []job{
+			{Run: "^TestDescriptors$", Quick: 600, QShards: 8, Thor: 6000, TShards: 14},
+			{Run: "^TestCodec$", Quick: 150, QShards: 6, Thor: 1500, TShards: 14},
+		},
+		Rule:   "multi-file IDL models (annotations with repeated keys, comments, constants of every shape, typedef chains across files, same base names) parsed and resolved by the real front end; GetFileDescriptor compared field by field with a descriptor content computed from the model alone; lookups by name/id across includes after RegisterAST; Marshal/Unmarshal identity; non-trivial = >=2 files, repeated annotation keys and a typedef chain crossing files, distinct by program text",
+		Assume: []string{"representation details descriptor.thrift leaves open (comment markers, requiredness letter case, 'void' response type) are compared by content only", "map constants are compared as unordered entry sets", "the generated-code half (descriptors reachable from compiled packages) is not covered by this job"},
+	},
 }
